@@ -289,8 +289,10 @@ func c02LoopSub(dir string) *engine.Sub {
 		Name:   name,
 		Repeat: true,
 		Rule:   "proof lists [A, B, A, root] and [A, B, A, B, A, root] in which A (p1 -> p2) and B (p2 -> p1) delegate back and forth, so that the SAME delegation (same CID) occurs two or three times; every assignment of lattice commands to the invocation, A, B and the root: allowed only if every entry covers the one before it (A <= B <= A forces equal commands); non-trivial = at most one link fails",
-		Bound:  func(string) string { return fmt.Sprintf("%d^4 command assignments x 2 loop counts x 2 APIs", len(c02Lattice)) },
-		Setup:  func(string) error { chainInit(); return nil },
+		Bound: func(string) string {
+			return fmt.Sprintf("%d^4 command assignments x 2 loop counts x 2 APIs", len(c02Lattice))
+		},
+		Setup: func(string) error { chainInit(); return nil },
 		Gen: func(tier string, emit func(any) bool) {
 			L := len(c02Lattice)
 			for i := 0; i < L; i++ {
@@ -381,8 +383,10 @@ func c02WsSub(dir string) *engine.Sub {
 		Name:   name,
 		Repeat: true,
 		Rule:   "chains of 1 - 2 links whose commands are /a and its white-space variants (/a + LF, CR, CRLF, blank, TAB, NBSP, BOM; /a + LF + /b; a BOM before a; all valid, all different commands), every token sealed and decoded again before the check (a decoder must hand back the command that was signed): reference = segment-prefix order on the exact texts; non-trivial = at most one link fails",
-		Bound:  func(string) string { return fmt.Sprintf("%d commands per position, chains of 1..2 links, sealed + decoded", len(c02WsLattice)) },
-		Setup:  func(string) error { chainInit(); return nil },
+		Bound: func(string) string {
+			return fmt.Sprintf("%d commands per position, chains of 1..2 links, sealed + decoded", len(c02WsLattice))
+		},
+		Setup: func(string) error { chainInit(); return nil },
 		Gen: func(tier string, emit func(any) bool) {
 			L := len(c02WsLattice)
 			for a := 0; a < L; a++ {
